@@ -46,6 +46,14 @@ Theorem C11_change_empty_keeps :
   fst (step text D T diag no_diag tokens null_tokens d (DidChange text u v [])) = d.
 Proof. exact change_empty_keeps. Qed.
 
+(* a closed document is no longer part of what is analysed; the other documents stay as they are *)
+Theorem C11_close_forgets :
+  forall (text D T : Type) diag no_diag tokens null_tokens (d : docs text) u,
+  u_file u = true ->
+  get text (fst (step text D T diag no_diag tokens null_tokens d (DidClose text u))) (u_id u) = None /\
+  (forall k, k <> u_id u -> get text (fst (step text D T diag no_diag tokens null_tokens d (DidClose text u))) k = get text d k).
+Proof. exact close_forgets. Qed.
+
 (* non-vacuity of the hypothesis: an analysis that looks documents up by name is a function of the contents *)
 Example C11_example :
   let diag := fun (d : docs nat) (u : N) => get nat d u in
